@@ -815,4 +815,24 @@ theorem C12_dict_pairs_fixed :
       .ok (.dict 0 [(.str 0 "a", .int 0 1), (.str 0 "b", .int 0 2)]) := by
   intro d; cases d <;> rfl
 
+/-- known defect `dataclass-list-under-nec`: the running transformer's no_explicit_cast switches the
+unwrapping of a list / tuple input off, but the data class's own (lenient) options then read the whole list
+as key/value pairs — `[('a', 1)]` becomes the data class under no_explicit_cast and fails without flags -/
+def KnownDefect.dataclassListNec (fr : Flags) (v : V) : Bool :=
+  fr.nec && (match v with
+    | .seq k _ _ => k == .list || k == .tuple
+    | _ => false)
+
+open Utv.C12M in
+theorem C12_dataclass_list_nec_witness :
+    ∃ (v r : V), dataclassInput P0 E0 ⟨true, false⟩ ⟨false, false⟩ v = .ok r ∧
+      (∀ r', dataclassInput P0 E0 ⟨false, false⟩ ⟨false, false⟩ v ≠ .ok r') ∧
+      KnownDefect.dataclassListNec ⟨true, false⟩ v = true :=
+  ⟨.seq .list 0 [.seq .tuple 0 [.str 0 "a", .int 0 1]], .dict 0 [(.str 0 "a", .int 0 1)], by rfl,
+    fun r' h => by
+      have : dataclassInput P0 E0 ⟨false, false⟩ ⟨false, false⟩ (.seq .list 0 [.seq .tuple 0 [.str 0 "a", .int 0 1]])
+          = .perr .jsonDecode := by rfl
+      rw [this] at h; simp at h,
+    by rfl⟩
+
 end Utv.C12
